@@ -4,6 +4,7 @@ import (
 	"encoding/json"
 	"flag"
 	"fmt"
+	"go/types"
 	"os"
 	"os/exec"
 	"path/filepath"
@@ -98,6 +99,9 @@ func main() {
 				continue
 			}
 			n := 0
+			if eng.usesLocks(k) {
+				n++
+			}
 			for _, b := range fn.Blocks {
 				for _, ins := range b.Instrs {
 					var cc *ssa.CallCommon
@@ -308,6 +312,18 @@ func (e *Engine) usesLocks(key string) bool {
 	}
 	for _, b := range fn.Blocks {
 		for _, ins := range b.Instrs {
+			// an access to a field under a `guarded` declaration is part of the lock discipline as well
+			if fa, ok := ins.(*ssa.FieldAddr); ok && len(e.CS.Guarded) > 0 {
+				if pt, ok := fa.X.Type().Underlying().(*types.Pointer); ok {
+					if stt, ok := pt.Elem().Underlying().(*types.Struct); ok {
+						rt, _, p := canonField(pt.Elem(), fmt.Sprint(fa.Field))
+						_ = stt
+						if _, g := e.CS.Guarded[typeKey(rt)+"."+fieldNames(rt, p)]; g {
+							return true
+						}
+					}
+				}
+			}
 			var cc *ssa.CallCommon
 			switch x := ins.(type) {
 			case *ssa.Call:
